@@ -26,6 +26,7 @@ func init() {
 	ruleText["R15.6"] = "in genGlobalVarDecl, from the statement appending a variable to the ordered list the head of the innermost enclosing loop is not reachable without leaving that loop: the earliest ready variable is taken first, then the scan restarts"
 	ruleText["R15.7"] = "for every case of gta's switch over node kinds that creates variable symbols (directly or in a directly called in-package function), each &symbol{kind: varSym} literal records the declaration node (and the global flag if getVarDependencies tests it), in the literal or by an assignment in the same case"
 	ruleText["R15.9"] = "getVarDependencies stores nothing outside its own locals (same analysis as C05/R05.6): no dependency set is remembered across variables in a map or field supplied by the caller"
+	ruleText["R15.10"] = "in the function looping over its []*node roots to collect their declarations, every call of a function reaching getVarDependencies is outside all loops and receives the slice accumulated over the roots"
 	ruleText["R15.8"] = "in the defineStmt and defineXStmt cases of gta no in-package resolving call assigns the pass's named error result (cfgErrorf excepted) and the node is appended to the revisit list"
 	ruleText["R15.4"] = "the function collecting the dependencies of a package variable handles function symbols (refers to funcSym): dependencies that pass through function bodies are followed"
 }
@@ -44,6 +45,7 @@ func runC15(c *Config, r *Report) {
 	c15R6(ic, r)
 	c15R7(ic, r)
 	c15R8(ic, r)
+	c15R10(ic, r)
 	// R15.9: the dependency collector recomputes its answer for each variable
 	pureFuncs(ic, r, "R15.9", []string{"getVarDependencies"}, 1, "recomputed-for-each-variable",
 		"the variables reached through a function body depend on where the walk entered a cycle of mutually recursive functions (the function being visited is skipped), so a result remembered for one variable is incomplete for the next one: its initializer is ordered before a variable it reads through the other function and sees the zero value", false)
@@ -939,4 +941,128 @@ func c15R8(ic *IC, r *Report) {
 	if n < 2 {
 		r.Errorf("R15.8: %d of the defineStmt/defineXStmt cases found in gta", n)
 	}
+}
+
+// c15R10: the package variables of all the files handed to genGlobalVars are ordered
+// together (dependencies cross files). In the function that collects the declarations of each
+// root (it calls the per-root collector in a loop over its []*node parameter), the call of the
+// ordering routine (an in-package function reaching the dependency collector) is made outside
+// every loop and receives the slice accumulated over the roots.
+func c15R10(ic *IC, r *Report) {
+	info := ic.Info
+	depFn := ic.F["getVarDependencies"]
+	if depFn == nil || depFn.Obj == nil {
+		r.Errorf("anchor not resolved: getVarDependencies")
+		return
+	}
+	// in-package functions reaching the dependency collector by direct calls (depth 2)
+	reaches := map[*types.Func]bool{depFn.Obj: true}
+	for round := 0; round < 2; round++ {
+		for _, fi := range ic.F {
+			if fi.Decl.Body == nil || fi.Obj == nil || reaches[fi.Obj] {
+				continue
+			}
+			ast.Inspect(fi.Decl.Body, func(m ast.Node) bool {
+				if c, ok := m.(*ast.CallExpr); ok {
+					if f, ok := calleeOf(info, c).(*types.Func); ok && reaches[f] {
+						reaches[fi.Obj] = true
+					}
+				}
+				return true
+			})
+		}
+	}
+	n := 0
+	for _, name := range sortedKeys(ic.F) {
+		fi := ic.F[name]
+		if fi.Decl.Body == nil || fi.Obj == nil || fi.Decl.Recv != nil {
+			continue
+		}
+		sig := fi.Obj.Type().(*types.Signature)
+		if sig.Params().Len() < 1 || types.TypeString(sig.Params().At(0).Type(), func(*types.Package) string { return "" }) != "[]*node" {
+			continue
+		}
+		roots := sig.Params().At(0)
+		// a loop over the roots accumulating a slice
+		accum := map[types.Object]bool{}
+		hasLoop := false
+		ast.Inspect(fi.Decl.Body, func(m ast.Node) bool {
+			rs, ok := m.(*ast.RangeStmt)
+			if !ok {
+				return true
+			}
+			if id, ok := unparen(rs.X).(*ast.Ident); !ok || info.ObjectOf(id) != roots {
+				return true
+			}
+			// the loop collects the declarations of each root: it calls a func(*node) []*node
+			collects := false
+			for _, c := range allCalls(rs.Body) {
+				if f, ok := calleeOf(info, c).(*types.Func); ok && f.Pkg() == ic.Pk.Types {
+					fs := f.Type().(*types.Signature)
+					if fs.Recv() == nil && fs.Params().Len() == 1 && fs.Results().Len() == 1 && isNamedPtr(fs.Params().At(0).Type(), "node") &&
+						types.TypeString(fs.Results().At(0).Type(), func(*types.Package) string { return "" }) == "[]*node" {
+						collects = true
+					}
+				}
+			}
+			if !collects {
+				return true
+			}
+			hasLoop = true
+			ast.Inspect(rs.Body, func(k ast.Node) bool {
+				as, ok := k.(*ast.AssignStmt)
+				if !ok || len(as.Lhs) != 1 || len(as.Rhs) != 1 || as.Tok != token.ASSIGN {
+					return true
+				}
+				if c, ok := unparen(as.Rhs[0]).(*ast.CallExpr); ok && isBuiltinCall(info, c, "append") {
+					if id, ok := as.Lhs[0].(*ast.Ident); ok {
+						accum[info.ObjectOf(id)] = true
+					}
+				}
+				return true
+			})
+			return true
+		})
+		if !hasLoop {
+			continue
+		}
+		for _, c := range allCalls(fi.Decl.Body) {
+			f, ok := calleeOf(info, c).(*types.Func)
+			if !ok || !reaches[f] || f == fi.Obj || len(c.Args) == 0 {
+				continue
+			}
+			n++
+			inLoop := false
+			for _, p := range enclosingPath(fi.Decl.Body, c) {
+				if loopBody(p) != nil {
+					inLoop = true
+				}
+			}
+			id, isID := unparen(c.Args[0]).(*ast.Ident)
+			whole := isID && accum[info.ObjectOf(id)]
+			why := ""
+			switch {
+			case inLoop:
+				why = "is made inside a loop (once per root)"
+			case !whole:
+				why = "receives " + types.ExprString(c.Args[0]) + ", not the list accumulated over all the roots"
+			}
+			r.Check(why == "", "R15.10", fmt.Sprintf("%s/ordering-call#%d/all-files-together", name, n), ic.pos(c.Pos()), "the declarations of all the roots are ordered in one call",
+				"in "+name+" the call of "+f.Name()+" "+why+": the variables of each file are ordered separately and chained file after file, so a variable whose initializer depends on a variable declared in a later file of the package is initialised first and sees the zero value")
+		}
+	}
+	if n == 0 {
+		r.Errorf("R15.10: no call of the ordering routine found in a function looping over its []*node roots (genGlobalVars expected)")
+	}
+}
+
+func allCalls(n ast.Node) []*ast.CallExpr {
+	var out []*ast.CallExpr
+	ast.Inspect(n, func(m ast.Node) bool {
+		if c, ok := m.(*ast.CallExpr); ok {
+			out = append(out, c)
+		}
+		return true
+	})
+	return out
 }
